@@ -21,6 +21,8 @@ def main():
     import logging
     logging.disable(logging.CRITICAL)
     sys.setrecursionlimit(20000)
+    import threading
+    threading.stack_size(512 * 1024 * 1024)
     from . import runner
     if a.replay:
         doc = json.load(open(a.replay))
